@@ -37,6 +37,14 @@ fn main() {
             "lines" => replay_one(&suites::lines::Lines, &v["input"], &mut model),
             "glob" => replay_one(&suites::glob::Glob, &v["input"], &mut model),
             "clipath" => replay_one(&suites::clipath::CliPath, &v["input"], &mut model),
+            "replace" => replay_one(&suites::message::replace_suite(), &v["input"], &mut model),
+            "litrules" => replay_one(&suites::message::rules_suite(), &v["input"], &mut model),
+            "rxrules-blob" => replay_one(&suites::message::rxrules_suite(true), &v["input"], &mut model),
+            "rxrules-msg" => replay_one(&suites::message::rxrules_suite(false), &v["input"], &mut model),
+            "applylit" => replay_one(&suites::message::apply_suite(), &v["input"], &mut model),
+            "template" => replay_one(&suites::message::template_suite(), &v["input"], &mut model),
+            "timestamp" => replay_one(&suites::identity::timestamp_suite(), &v["input"], &mut model),
+            "mailmap" => replay_one(&suites::identity::mailmap_suite(), &v["input"], &mut model),
             _ => json!({"error": "unknown suite"}),
         };
         println!("{}", serde_json::to_string_pretty(&r).unwrap());
@@ -44,27 +52,37 @@ fn main() {
         std::process::exit(if bad { 1 } else { 0 });
     }
     let mut results = Vec::new();
+    let names: Vec<String> = names;
     for name in &names {
         let mut model = Model::spawn(&model_path).expect("spawn model driver");
         let t0 = std::time::Instant::now();
-        let rep = match name.as_str() {
-            "codec" => suites::codec::run(&tier, seed, &mut model),
-            "lines" => suites::lines::run(&tier, seed, &mut model),
-            "glob" => suites::glob::run(&tier, seed, &mut model),
-            "clipath" => suites::clipath::run(&tier, seed, &mut model),
+        let reps: Vec<frrs_harness::report::Suite> = match name.as_str() {
+            "codec" => vec![suites::codec::run(&tier, seed, &mut model)],
+            "lines" => vec![suites::lines::run(&tier, seed, &mut model)],
+            "glob" => vec![suites::glob::run(&tier, seed, &mut model)],
+            "clipath" => vec![suites::clipath::run(&tier, seed, &mut model)],
+            "replace" => vec![suites::message::run_replace(&tier, seed, &mut model)],
+            "rules" => suites::message::run_rules(&tier, seed, &mut model),
+            "template" => vec![suites::message::run_template(&tier, seed, &mut model)],
+            "timestamp" => vec![suites::identity::run_timestamp(&tier, seed, &mut model)],
+            "authors" => suites::identity::run_authors(&tier, seed, &mut model),
+            "mailmap" => vec![suites::identity::run_mailmap(&tier, seed, &mut model)],
             other => {
                 eprintln!("unknown suite {other}");
                 std::process::exit(2);
             }
         };
-        let mut j = rep.to_json();
-        j["wall_s"] = json!(t0.elapsed().as_secs_f64());
-        eprintln!(
-            "[fncorr] {name}: {} cases, {} disagreements, {} oracle failures, {} panics, {:.1}s",
-            rep.cases, rep.disagreements.len(), rep.oracle_failures.len(), rep.panics, t0.elapsed().as_secs_f64()
-        );
-        results.push(j);
+        for rep in reps {
+            let mut j = rep.to_json();
+            j["wall_s"] = json!(t0.elapsed().as_secs_f64());
+            eprintln!(
+                "[fncorr] {}: {} cases, {} disagreements, {} oracle failures, {} panics, {:.1}s",
+                rep.name, rep.cases, rep.disagreements.len(), rep.oracle_failures.len(), rep.panics, t0.elapsed().as_secs_f64()
+            );
+            results.push(j);
+        }
     }
+    suites::simple::cleanup_scratch();
     let doc = json!({"tier": tier, "seed": seed, "suites": results});
     let text = serde_json::to_string_pretty(&doc).unwrap();
     match out {
